@@ -61,6 +61,11 @@ func (sp *Proof) Verify(rootHash []byte, leaf []byte) error {
 		return fmt.Errorf("invalid leaf hash: wanted %X got %X", leafHash, sp.LeafHash)
 	}
 	computedHash := sp.ComputeRootHash()
+	if computedHash == nil {
+		// no root can be computed from this index, total and aunts: the proof
+		// proves nothing, not even against an empty root hash
+		return errors.New("invalid proof: cannot compute a root hash from index, total and aunts")
+	}
 	if !bytes.Equal(computedHash, rootHash) {
 		return fmt.Errorf("invalid root hash: wanted %X got %X", rootHash, computedHash)
 	}
